@@ -523,6 +523,7 @@ func search(seed uint64, n, exh int) {
 	searchSparse(rng, n/4+3)
 	searchEncodeFileSW(rng, n/2+5)
 	searchHeaderLimits(rng, n/2+8)
+	searchOffsetReader(rng, n/2+10)
 	fmt.Fprintf(out, "EVALS\t%d\n", evals)
 }
 
